@@ -96,11 +96,11 @@ func (c lcell) ToSeq() []int {
 // ---- list sources ---------------------------------------------------------------------------
 
 type lsrc struct {
-	evals   []int // list.Generate sources: evaluations of generator(i)
-	itc     *srcCount
-	tap     *ltap // the source pass-through (counts cells evaluated by the first stage)
-	twice   string
-	hasGen  bool
+	evals  []int // list.Generate sources: evaluations of generator(i)
+	itc    *srcCount
+	tap    *ltap // the source pass-through (counts cells evaluated by the first stage)
+	twice  string
+	hasGen bool
 }
 
 type lsrcKind struct {
@@ -229,9 +229,9 @@ func (p *lpipe) outputs(data []int) [][]int {
 
 // list demand patterns on the first k cells
 const (
-	patForward = iota // NonEmpty, Head, Tail cell by cell
-	patTailsFirst     // k-1 Tail calls without looking, then look at the last cell, then walk forward
-	patUnapply        // NonEmpty, Unapply
+	patForward    = iota // NonEmpty, Head, Tail cell by cell
+	patTailsFirst        // k-1 Tail calls without looking, then look at the last cell, then walk forward
+	patUnapply           // NonEmpty, Unapply
 	nPatterns
 )
 
@@ -496,8 +496,15 @@ func (p *lpipe) run(x *mc.X, sk lsrcKind, data []int, outs [][]int, k, pat int, 
 }
 
 func (p *lpipe) check(x *mc.X, sk lsrcKind, data []int, outs [][]int, k, pat int) bool {
-	dr := p.run(x, sk, data, outs, k, pat, false)
+	var dr lrunResult
+	// see ipipe.check: on finite sources the largest demand covers the direct runs of smaller ones
+	if sk.unbounded || p.term != nil || len(p.stages) <= 1 || k == len(outs[len(outs)-1])+1 {
+		dr = p.run(x, sk, data, outs, k, pat, false)
+	}
 	wr := p.run(x, sk, data, outs, k, pat, true)
+	if x.Recording() {
+		x.Logf("  demand first %d cells (%s) -> direct: %v, wrapped: %v", k, patNames[pat], dr.f, wr.f)
+	}
 	f := dr.f
 	if f != nil {
 		if f.culprit == "" && wr.f != nil {
